@@ -6,6 +6,9 @@
 # Exit 0 iff every seed is caught. Never run concurrently with anything else that builds from /repo.
 set -u
 cd /verif
+# runs on a patched tree must not overwrite the evidence of the unchanged tree
+export VERIF_EVIDENCE_DIR=/verif/scratch/evidence_seeded
+mkdir -p $VERIF_EVIDENCE_DIR
 names=("$@")
 if [ ${#names[@]} -eq 0 ]; then names=($(ls seeded | sort)); fi
 missed=0
